@@ -18,6 +18,9 @@ REWRITES = {
     "newline": lambda s: s.replace(" ", "\n"),
     "nbsp": lambda s: s.replace(" ", "\xa0"),
     "mixed": lambda s: s.replace(" ", " \xa0\t "),
+    "nbsp-led-run": lambda s: s.replace(" ", "\xa0 "),
+    "nbsp-nbsp": lambda s: s.replace(" ", "\xa0\xa0"),
+    "nbsp-tab": lambda s: s.replace(" ", "\xa0\t"),
     "colon": lambda s: s + ":",
 }
 
